@@ -19,7 +19,7 @@ def _sh(s):
 # ------------------------------------------------------------------ no_ambiguity
 
 
-@rule("OPT-AMB", ["C08", "C01", "C12"], floor=5)
+@rule("OPT-AMB", ["C08", "C01", "C12"], floor=4)
 def opt_amb(ctx):
     """no_ambiguity may answer true only under a justification: J1 the follower is EndProgram and the repeat is
     greedy; J2 the first sets of the repeated term and of the follower are disjoint AND the follower can never
